@@ -4,6 +4,7 @@ The API operations of gin as one state machine (`step`), and histories of them (
 import Gin.State
 import Gin.Eval
 import Gin.Statements
+import Gin.Serialize
 
 namespace Gin
 
@@ -57,6 +58,7 @@ inductive Out where
   | events (l : List CallEvent)
   | locs (l : List ((Scope × Sel) × String × Loc))
   | parsed (includes : List Parsed) (imports : List String)
+  | doc (d : Doc)
   | failed (f : Failure)
 deriving Inhabited
 
@@ -131,6 +133,8 @@ mutual
           | "opstr" => .store (State.printable st.operative)
           | "config" => .store st.config
           | "log" => .events st.log
+          | "cfgdoc" => .doc (emitDoc st st.config)
+          | "opdoc" => .doc (emitDoc st st.operative)
           | "imports" => .names st.imports.eraseDups
           | "curscope" => .scope []   -- operations run outside any `config_scope` block
           | "prov" => .locs (State.provenanceOf st st.config)
